@@ -559,6 +559,22 @@ func TestTlvShapes(t *testing.T) {
 				}()
 				w.Emit(map[string]any{"ev": "tamper", "kind": sh.Kind, "id": s.Id, "signer": s.Signer, "region": rg.name, "bit": bit, "off": bit/8 - rg.r[0], "outcome": outcome})
 				n++
+				// the decoder the forwarder and the engines use (ReadPacket) must refuse a parameters-digest mismatch as well
+				if sh.Kind == "interest" && rg.name == "params" {
+					out2 := "decode-error"
+					func() {
+						defer func() {
+							if r := recover(); r != nil {
+								out2 = "panic"
+							}
+						}()
+						if pk, _, err := spec.ReadPacket(enc.NewBufferReader(m)); err == nil && pk.Interest != nil {
+							out2 = "accepted"
+						}
+					}()
+					w.Emit(map[string]any{"ev": "tamper", "kind": sh.Kind, "id": s.Id, "signer": s.Signer, "region": "params/ReadPacket", "bit": bit, "off": bit/8 - rg.r[0], "outcome": out2})
+					n++
+				}
 			}
 		}
 	})
